@@ -36,9 +36,24 @@ class Item:
         self.replay = replay
 
 
+class HardTimeout(BaseException):
+    pass
+
+
+def _alarm(signum, frame):
+    import traceback as _tb
+    raise HardTimeout('item exceeded its hard time limit at:\n' + ''.join(_tb.format_stack(frame)[-6:]))
+
+
 def _run_item(item):
+    import signal
     t0 = time.time()
     out = dict(desc=item.desc, error=None)
+    try:
+        signal.signal(signal.SIGALRM, _alarm)
+        signal.alarm(int(item.timeout_s * 1.5) + 60)
+    except Exception:
+        pass
     try:
         fn = item.make()
         E = Engine(timeout_ms=item.solver_ms, max_paths=item.max_paths, deadline=t0 + item.timeout_s)
@@ -58,6 +73,11 @@ def _run_item(item):
         out['cands'] = [c.as_dict() for c in E.candidates]
     except BaseException as e:  # harness error inside an item
         out['error'] = '%s: %s\n%s' % (type(e).__name__, e, traceback.format_exc()[-1500:])
+    finally:
+        try:
+            signal.alarm(0)
+        except Exception:
+            pass
     out['wall_s'] = round(time.time() - t0, 2)
     return out
 
